@@ -368,6 +368,10 @@ def oracle_C05(r):
         if sorted(r["teardown"]) != sorted(tds):
             bad.append(("C05:ownership", f"teardown callbacks registered {sorted(tds)}, run when the surrounding context "
                         f"was left: {sorted(r['teardown'])}"))
+    early = [o for s_ in r["steps"] for o in s_["obs"] if o[0] == "Td"] + [o for o in r.get("late") or [] if o[0] == "Td"]
+    if early:
+        bad.append(("C05:torn-down-early", f"teardown callbacks {sorted(o[1] for o in early)} registered by components ran "
+                    f"before the surrounding context was left"))
     bad += [("C05:acyclic-pattern-stuck", w) for sig, w in stuck_check(r) if sig == "C06:stuck"]
     o = r["outcome"]
     has_fail = any(a[0] == "Fail" for c in r["prog"] for st_ in ("prep", "start") for sg in c[st_] for a in sg)
@@ -489,6 +493,10 @@ def deadlock_check(r):
 
 def oracle_C07(r):
     bad = []
+    early = [o for s_ in r["steps"] for o in s_["obs"] if o[0] == "Td"] + [o for o in r.get("late") or [] if o[0] == "Td"]
+    if early:
+        bad.append(("C07:torn-down-early", f"teardown callbacks {sorted(o[1] for o in early)} of components that had "
+                    f"started ran before the surrounding context was left"))
     if r.get("ghost_stops"):
         bad.append(("C07:never-started-service-stopped", f"the teardown action of service task(s) {r['ghost_stops']} ran "
                     f"although the start of the service was cut short before it had come up"))
